@@ -1148,7 +1148,7 @@ func (p *BinaryProtocol) ReadBaseTypeWithDesc(desc *proto.TypeDescriptor, hasMes
 		v, e := p.ReadInt64()
 		return v, e
 	case proto.SINT64:
-		v, e := p.ReadInt64()
+		v, e := p.ReadSint64()
 		return v, e
 	case proto.UINT64:
 		v, e := p.ReadUint64()
